@@ -1932,5 +1932,7 @@ fn main() {
     ctx.require_label_fraction("op-sequences", "v2", 0.2);
     ctx.require_label_fraction("op-sequences", "v3", 0.2);
     ctx.require_label_fraction("op-sequences", "counter-gt-max-compact-size", 0.2);
+    // coverage-guided byte-level campaign (libFuzzer target `history_node`, oracle inside the target)
+    ctx.run_fuzz("history_node", ctx.tier.pick(500_000, 10_000_000), ctx.tier.pick(4, 16), 1024);
     ctx.finish();
 }
